@@ -3,5 +3,5 @@
 set -e
 cd "$(dirname "$0")"
 coqc -R ../coq VF ../coq/Extract/Extract.v > extract.log 2>&1 || { cat extract.log; exit 1; }
-ocamlfind ocamlopt -O2 -w -a -o ../bin/modelrun model.mli model.ml driver_util.ml modelrun_ext.ml alloc_driver.ml pages_driver.ml monitor_driver.ml modelrun.ml 2>/dev/null || \
-ocamlfind ocamlopt -w -a -o ../bin/modelrun model.mli model.ml driver_util.ml modelrun_ext.ml alloc_driver.ml pages_driver.ml monitor_driver.ml modelrun.ml
+ocamlfind ocamlopt -O2 -w -a -o ../bin/modelrun model.mli model.ml driver_util.ml modelrun_ext.ml alloc_driver.ml pages_driver.ml monitor_driver.ml pqw_driver.ml modelrun.ml 2>/dev/null || \
+ocamlfind ocamlopt -w -a -o ../bin/modelrun model.mli model.ml driver_util.ml modelrun_ext.ml alloc_driver.ml pages_driver.ml monitor_driver.ml pqw_driver.ml modelrun.ml
